@@ -562,8 +562,9 @@ open Barril.Ctor
 
 /-! ### row predicates for the generated table theorems -/
 
-/-- the unit's default category resolves to a registered category of the row's quantity type and
-`ObtainQuantity(unit)` builds the quantity (category, unit) -/
+/-- the unit's default category resolves: `GetDefaultCategory` finds the row under its symbol and
+answers a non-empty name, and that name is a registered category of the row's own quantity type
+(which is what makes `Quantity(category, unit)` succeed: `Ctor.newQuantity_of_row`) -/
 def UnitRow.defaultCatOk (db : Db) (r : UnitRow) : Bool :=
   match rowDefaultCategory db r with
   | Option.none => false
@@ -573,12 +574,14 @@ def UnitRow.defaultCatOk (db : Db) (r : UnitRow) : Bool :=
     && (match db.catByName c with
         | some ci => ci.qtype == r.qtype
         | Option.none => false)
-    && newQuantity db (.str c Option.none) r.sym == .ok ⟨c, r.sym⟩
 
-/-- the category is found under its name, and its default unit is a unit it accepts -/
+/-- the category is found under its name, and its default unit is a registered unit of the
+category's quantity type -/
 def CatRow.defaultUnitOk (db : Db) (c : CatRow) : Bool :=
   db.catByName c.name == some c
-  && newQuantity db (.str c.name Option.none) c.defaultUnit == .ok ⟨c.name, c.defaultUnit⟩
+  && (match db.unitBySym c.defaultUnit with
+      | some r => r.qtype == c.qtype
+      | Option.none => false)
 
 /-- the unit symbol needs no escaping inside a `'…'` literal -/
 def UnitRow.symPlain (r : UnitRow) : Bool := litOk r.sym
